@@ -95,6 +95,9 @@ class SimLoop(asyncio.BaseEventLoop):
     async def create_connection(self, protocol_factory, host=None, port=None, **kwargs):
         device = self.sim.device
         outcome = device.next_outcome(("atcp", (host, port), None))
+        if outcome == "slow":
+            await asyncio.sleep(0.25)
+            outcome = "ok"
         if outcome == "timeout":
             await self.create_future()  # never completes; wait_for cancels it
         if outcome == "unreach":
@@ -254,6 +257,8 @@ class SerialAsyncioShim:
         sim = kernel.CURRENT
         device = sim.device
         outcome = device.next_outcome(("aserial",) + tuple(args))
+        if outcome == "slow":
+            outcome = "ok"
         if outcome != "ok":
             raise _real_serial.SerialException(f"could not open port: simulated {outcome}")
         protocol = protocol_factory()
